@@ -97,7 +97,7 @@ func (c *Ctx) cod1(which map[string]bool) {
 				}
 				// find make(chan, cap) whose size is a load of Config.<fld>
 				found := false
-				for _, b := range nc.Blocks {
+				for _, b := range c.regionBlocks(nc) {
 					for _, ins := range b.Instrs {
 						mk, ok := ins.(*ssa.MakeChan)
 						if !ok {
@@ -105,6 +105,24 @@ func (c *Ctx) cod1(which map[string]bool) {
 						}
 						if roleKey(mk.Size) == "Config."+fld {
 							found = true
+						}
+						// made by a helper introduced later: the capacity it is called with
+						if pr, isP := stripConv(mk.Size).(*ssa.Parameter); isP && c.isNewHelper(pr.Parent()) {
+							idx := -1
+							for i, q := range pr.Parent().Params {
+								if q == pr {
+									idx = i
+								}
+							}
+							for _, cb := range c.regionBlocks(nc) {
+								for _, ci := range cb.Instrs {
+									if call, isC := ci.(ssa.CallInstruction); isC && call.Common().StaticCallee() == pr.Parent() && idx >= 0 && idx < len(call.Common().Args) {
+										if roleKey(call.Common().Args[idx]) == "Config."+fld {
+											found = true
+										}
+									}
+								}
+							}
 						}
 					}
 				}
